@@ -23,7 +23,19 @@ OK(list, kind, word) ==
      \* a clone taken at step i yields exactly what the original has not yielded yet
      /\ \A i \in 1..Len(word) + 1 :
           {r.clones[i][j] : j \in 1..Len(r.clones[i])} = PairsOf(list) \ {r.yields[j] : j \in 1..(i - 1)}
-AllNext(n) == [i \in 1..n |-> "n"]
+AllNext(n) == [i \in 1..n |-> <<"n", -1>>]
+\* with skips: nth(k) is k + 1 plain steps of which only the last one is reported; never an entry twice, hints exact,
+\* an over-long skip exhausts the iterator
+Expand(word) == \* the plain word a skip word abbreviates
+  LET F[i \in 0..Len(word)] == IF i = 0 THEN <<>> ELSE F[i - 1] \o [j \in 1..(Skip(word[i]) + 1) |-> <<Dir(word[i]), -1>>] IN F[Len(word)]
+SkipOK(list, kind, word) ==
+  LET r == Run(list, kind, "kv", word)
+      x == Run(list, kind, "kv", Expand(word))
+      got == SelectSeq(r.yields, LAMBDA y : y # NoItem)
+  IN /\ Cardinality(Yielded(r)) = Len(got) /\ Yielded(r) \subseteq PairsOf(list)
+     /\ r.count = x.count /\ r.rest = x.rest /\ r.last = x.last             \* same remainder as the expanded plain word
+     /\ \A i \in 1..Len(word) : r.yields[i] # NoItem => r.yields[i] \in Yielded(x)
+     /\ r.count + Cardinality(Yielded(x)) = Len(list)
 Init == done = FALSE
 Next == /\ ~done /\ done' = TRUE
         /\ \A list \in Lists : \A kind \in {"mru", "lru"} : \A word \in Words(Len(list) + 2) :
@@ -32,6 +44,7 @@ Next == /\ ~done /\ done' = TRUE
              /\ \A i \in 1..Len(word) : LET y == Run(list, kind, "kv", word).yields[i] IN
                   y # NoItem => /\ Run(list, kind, "k", word).yields[i] = <<y[1], 0>>
                                 /\ Run(list, kind, "v", word).yields[i] = <<0, y[2]>>
+        /\ \A list \in Lists : \A kind \in {"mru", "lru"} : \A word \in SkipWords(3, 2) : SkipOK(list, kind, word)
         \* lru order is the exact reverse of mru order
         /\ \A list \in Lists :
              LET n == Len(list) IN
